@@ -234,3 +234,7 @@ void vf_harness(void) { XdlParser_put(); VF_CANARY(); }
     planted=[('put', r'(KEY_SET\(PROPS_TOP\(\)\);)\s*(PROPS_POP\(\);)', r'const String* vf_n = PROPS_TOP(); \2 KEY_SET(vf_n);')],
 )
 UNITS += [put_unit]
+
+for _u in UNITS:
+    if not _u.replay:
+        _u.replay = replay.battery('C05/driver.cpp', ['battery'])    # shared JSON/XDL driver
